@@ -2512,12 +2512,71 @@ pub fn verif_quote_server() -> Result<i32> {
                 };
                 hex(&emit_yaml_value(&value, &comments, &config, "", false))
             }
+            // `b <step> <tree>`: `emit_yaml_value` on a mapping built from the
+            // encoding `K<hexkey>S<hexval>;` / `K<hexkey>M[...]`, with an
+            // `indent_str` of `<step>` spaces.
+            "b" => {
+                let step: usize = a.get(1).and_then(|s| s.parse().ok()).unwrap_or(2);
+                let enc = a.get(2).copied().unwrap_or("");
+                let mut i = 0;
+                let value = verif_block_tree(enc.as_bytes(), &mut i);
+                let config = OutputConfig {
+                    output_format: OutputFormat::Yaml,
+                    compact: false,
+                    raw_output: false,
+                    join_output: false,
+                    nul_output: false,
+                    ascii_output: false,
+                    sort_keys: false,
+                    no_doc: false,
+                    indent_str: " ".repeat(step),
+                    use_color: false,
+                    json_sourced_floats: false,
+                };
+                hex(&emit_yaml_value(&value, &CommentTree::empty(), &config, "", false))
+            }
             _ => "BAD-OP".to_string(),
         };
         writeln!(out, "{r}")?;
         out.flush()?;
     }
     Ok(0)
+}
+
+/// Verification hook helper: parse `K<hexkey>S<hexval>;` / `K<hexkey>M[...]`
+/// entries (up to `]` or the end) into an `OwnedValue::Object`.
+#[cfg(feature = "verif-hooks")]
+fn verif_block_tree(b: &[u8], i: &mut usize) -> OwnedValue {
+    fn hexstr(b: &[u8], i: &mut usize) -> String {
+        let mut bytes = Vec::new();
+        while *i + 1 < b.len() && b[*i].is_ascii_hexdigit() && b[*i + 1].is_ascii_hexdigit() {
+            let h = core::str::from_utf8(&b[*i..*i + 2]).unwrap_or("00");
+            bytes.push(u8::from_str_radix(h, 16).unwrap_or(0));
+            *i += 2;
+        }
+        String::from_utf8_lossy(&bytes).into_owned()
+    }
+    let mut m = IndexMap::new();
+    while *i < b.len() && b[*i] == b'K' {
+        *i += 1;
+        let key = hexstr(b, i);
+        match b.get(*i) {
+            Some(b'S') => {
+                *i += 1;
+                let v = hexstr(b, i);
+                *i += 1; // ';'
+                m.insert(key, OwnedValue::String(v));
+            }
+            Some(b'M') => {
+                *i += 2; // 'M['
+                let v = verif_block_tree(b, i);
+                *i += 1; // ']'
+                m.insert(key, v);
+            }
+            _ => break,
+        }
+    }
+    OwnedValue::Object(m)
 }
 
 /// Verification hook helper: parse the forest encoding of `verif_quote_server`'s
